@@ -128,6 +128,18 @@ def check_graph(obj, s):
         for e in (n.source, n.sink):
             if isinstance(e, virtual):
                 marker_wires.setdefault(id(e), set()).add(id(n.wire))
+    # every symbol a net ends on must be one placed in THIS drawing (not a symbol object of some other Schematic)
+    mine = set(id(o) for o in s.objs)
+    st['net_endpoints_judged'] = 0
+    n_alien = 0
+    for n in s.nets:
+        for e, side in ((n.source, 'source'), (n.sink, 'sink')):
+            st['net_endpoints_judged'] += 1
+            if id(e) not in mine:
+                n_alien += 1
+                if n_alien <= 3:
+                    problems.append(('net_end_not_in_drawing', 'a net of wire %s ends (%s) at symbol %s which is not an object of this drawing' % (
+                        getattr(n.wire, 'name', '?'), side, getattr(e, 'name', type(e).__name__)), dict(side=side)))
     for k, ws in marker_wires.items():
         if len(ws) > 1:
             problems.append(('marker_shared', 'one pass-through/feedback marker carries nets of %d different wires' % len(ws), {}))
@@ -204,6 +216,9 @@ def check_graph(obj, s):
         own.setdefault(wid, set()).add((x, y))
     st['route_segments_judged'] = 0
     n_geo = 0
+    # classifier field: one wire sits on two or more INPUT PORTS of the drawn block (two source symbols for one wire)
+    _ipw = [id(p.wire) for p in obj.inPorts if p.wire is not None]
+    two_inports_one_wire = len(_ipw) != len(set(_ipw))
     for n in s.nets:
         wid = id(n.wire)
         if wid not in pins or len(pins[wid]['drv']) != 1 or n.x is None:
@@ -227,7 +242,7 @@ def check_graph(obj, s):
                     n_geo += 1
                     if n_geo <= 6:
                         problems.append(('route_over_foreign_pin', 'the drawn net of wire %s (%s -> %s) runs over pin %s of another wire at %r' % (
-                            n.wire.name, getattr(n.source, 'name', '?'), getattr(n.sink, 'name', '?'), desc, (px, py)), dict(net=shape)))
+                            n.wire.name, getattr(n.source, 'name', '?'), getattr(n.sink, 'name', '?'), desc, (px, py)), dict(net=shape, two_inports_one_wire=two_inports_one_wire)))
                     break
     for wid, nets in nets_of.items():
         if wid not in pins:
@@ -235,14 +250,10 @@ def check_graph(obj, s):
     return problems, st
 
 
-def run_one(case, limit_s):
-    from . import c18net
+def _draw(obj, limit_s, buf):
+    """-> (schematic or None, dict(timeout/raised..., dt))"""
     from py4hw.schematic import Schematic
-    buf = io.StringIO()
-    res = dict(idx=case['idx'])
-    with contextlib.redirect_stdout(buf), contextlib.redirect_stderr(buf):
-        obj = c18net.build(case)
-    res['children'] = len(obj.children)
+    res = {}
     t = time.time()
     s = None
     _armed[0] = True
@@ -262,16 +273,128 @@ def run_one(case, limit_s):
         _armed[0] = False
         signal.setitimer(signal.ITIMER_REAL, 0)
     res['dt'] = round(time.time() - t, 4)
-    out = buf.getvalue()
+    return s, res
+
+
+def _swallowed(res, out):
     res['swallowed'] = out.count('WARNING: error')
     if res['swallowed']:
         tb = [l for l in out.splitlines() if l and not l.startswith(' ') and ('Error' in l or 'Exception' in l)]
         res['swallowed_text'] = tb[-1][:160] if tb else ''
+
+
+def run_one(case, limit_s):
+    from . import c18net
+    if case['type'] == 'multi':
+        return run_multi(case, limit_s)
+    buf = io.StringIO()
+    res = dict(idx=case['idx'])
+    with contextlib.redirect_stdout(buf), contextlib.redirect_stderr(buf):
+        obj = c18net.build(case)
+    res['children'] = len(obj.children)
+    s, r = _draw(obj, limit_s, buf)
+    res.update(r)
+    _swallowed(res, buf.getvalue())
     if s is not None:
         problems, st = check_graph(obj, s)
         res['problems'] = [dict(clause=c, text=t_, fields=f) for c, t_, f in problems[:12]]
         res['n_problems'] = len(problems)
         res['stats'] = st
+    return res
+
+
+# ---------------------------------------------------------------------------- several drawings of one hierarchy in one process
+
+def _wires_used(obj):
+    ws = {}
+    for c in obj.children.values():
+        for p in list(c.inPorts) + list(c.outPorts):
+            if p.wire is not None:
+                ws[id(p.wire)] = p.wire
+    for p in list(obj.inPorts) + list(obj.outPorts):
+        if p.wire is not None:
+            ws[id(p.wire)] = p.wire
+    return ws
+
+
+def multi_targets(obj, schedule):
+    """-> [(role, block)]: the blocks of one hierarchy to draw, in order.  Roles: 'self' (the block of the base case), 'top' (the
+    enclosing system), 'sub<k>' (k-th structural child, in creation order), 'subsub' (first structural grandchild)."""
+    subs = [c for c in obj.children.values() if c.isStructural() and len(c.children) > 0]
+    subsub = [g for c in subs for g in c.children.values() if g.isStructural() and len(g.children) > 0]
+    S = [('sub%d' % k, c) for k, c in enumerate(subs[:3])]
+    G = [('subsub', g) for g in subsub[:1]]
+    me = [('self', obj)]
+    top = [('top', obj.parent)] if obj.parent is not None else []
+    if schedule == 'twice':
+        return me + me
+    if schedule == 'parent_child':
+        return top + me + S + G
+    if schedule == 'child_parent':
+        return list(reversed(top + me + S + G))
+    if schedule == 'siblings':
+        return (S + S[:1]) if len(S) > 1 else (S + me + S) if S else (me + top + me)
+    if schedule == 'interleaved':
+        return (S[:1] + me + S[:1] + me) if S else (top + me + top + me)
+    raise ValueError(schedule)
+
+
+def run_multi(case, limit_s):
+    """Several Schematic objects in ONE process over blocks of one hierarchy (they share Wire objects): every drawing is judged by
+    the full oracle, whatever was drawn before it."""
+    from . import c18net
+    buf = io.StringIO()
+    res = dict(idx=case['idx'])
+    with contextlib.redirect_stdout(buf), contextlib.redirect_stderr(buf):
+        obj = c18net.build(case['base'])
+    res['children'] = len(obj.children)
+    targets = multi_targets(obj, case['schedule'])
+    keep = []           # the earlier drawings stay alive, as in an interactive session
+    seen_wires = {}
+    seen_blocks = set()
+    tot = {}
+    problems = []
+    res['dt'] = 0
+    res['swallowed'] = 0
+    multi = dict(drawings=0, later_drawings_sharing_a_wire=0, shared_wires=0, redraws=0, roles=[])
+    for k, (role, blk) in enumerate(targets):
+        b = io.StringIO()
+        s, r = _draw(blk, limit_s, b)
+        res['dt'] = max(res['dt'], r['dt'])
+        sw = {}
+        _swallowed(sw, b.getvalue())
+        if sw['swallowed']:
+            res['swallowed'] += sw['swallowed']
+            res['swallowed_text'] = sw.get('swallowed_text', '')
+        if s is None:
+            res.update((k_, v) for k_, v in r.items() if k_ != 'dt')
+            res['failed_drawing'] = dict(k=k, role=role)
+            break
+        keep.append(s)
+        mine = _wires_used(blk)
+        shared = [w for w in mine if w in seen_wires]
+        multi['drawings'] += 1
+        multi['roles'].append(role)
+        if k and shared:
+            multi['later_drawings_sharing_a_wire'] += 1
+            multi['shared_wires'] += len(shared)
+        if id(blk) in seen_blocks:
+            multi['redraws'] += 1
+        seen_blocks.add(id(blk))
+        seen_wires.update(mine)
+        pr, st = check_graph(blk, s)
+        for c, t_, f in pr:
+            f = dict(f)
+            f['drawing'] = 'first' if k == 0 else 'later'
+            problems.append((c, 'drawing %d (%s of %s): %s' % (k, role, '/'.join(x for x, _ in targets), t_), f, sw))
+        for k_, v in st.items():
+            tot[k_] = tot.get(k_, 0) + v
+    if 'timeout' not in res and 'raised' not in res:
+        res['problems'] = [dict(clause=c, text=t_, fields=f, swallowed=sw_['swallowed'], swallowed_text=sw_.get('swallowed_text', ''))
+                           for c, t_, f, sw_ in problems[:12]]
+        res['n_problems'] = len(problems)
+        res['stats'] = tot
+        res['multi'] = multi
     return res
 
 
